@@ -19,6 +19,9 @@ static inline void apply_opts(assemblyline_t a, const spec::Opts &o, unsigned pa
     case 2: asm_mov_imm(a, (enum asm_opt)((o.mov + 2) % 3)); asm_sib(a, (enum asm_opt)(1 - o.swap)); asm_set_all(a, (enum asm_opt)o.mov); break;
     case 3: asm_mov_imm(a, NASM); asm_mov_imm(a, STRICT); asm_sib(a, (enum asm_opt)o.nobase); asm_mov_imm(a, (enum asm_opt)7); break;
   }
+  if (path % 4 == 0) {   // SIB setters first, the mov setter last: no later call repairs what it may have disturbed
+    asm_sib_no_base(a, (enum asm_opt)o.nobase); asm_sib_index_base_swap(a, (enum asm_opt)o.swap); asm_mov_imm(a, (enum asm_opt)o.mov); return;
+  }
   if (path % 4 == 1 || path % 4 == 2) { /* asm_set_all is the last call that touched the mov dimension */ }
   else asm_mov_imm(a, (enum asm_opt)o.mov);
   asm_sib_index_base_swap(a, (enum asm_opt)o.swap);
